@@ -1,7 +1,7 @@
 #!/bin/bash
 # tools/allquick.sh [tier] : run every check on the current tree, one summary line each
 cd /verif
-for i in $(seq -w 1 20); do
+for i in $(seq -w ${2:-1} 20); do
   s=$(date +%s)
   out=$(timeout 7200 ./check C$i --tier ${1:-quick} 2>&1 | grep -E "VIOLATION|KNOWN-FINDING|C$i (ok|FAIL)" | tr '\n' ' ')
   echo "C$i rc=$? $(( $(date +%s)-s ))s: $out"
